@@ -553,6 +553,7 @@ def bell_gen(ctx, res, parb):
     # ---- the exits of an ARBITRARY pass of the acceleration search: one abstract iteration from the loop header with the trial
     # acceleration and the step width as symbols (the fields written at the three exits are closed forms in the trial acceleration)
     ngen = 0
+    gen_exits = []
     try:
         loops = fn.loops()
         if len(loops) != 1:
@@ -590,6 +591,7 @@ def bell_gen(ctx, res, parb):
                 if S('t') not in ff or S('tv') not in ff:
                     continue
                 ngen += 1
+                gen_exits.append((list(lf.pc), ff))
                 continuity(lf.pc, ff, 'an exit of an arbitrary pass of the acceleration search', str(lf.pc)[-160:])
     except Unsupported as e:
         rep.unk('J2', 'a_trajbell_gen[arbitrary pass]', str(e), loc=loc)
@@ -599,6 +601,7 @@ def bell_gen(ctx, res, parb):
     nj3 = 0
     jm_, am_ = sp.Symbol('jm_', real=True, positive=True), sp.Symbol('am_', real=True, positive=True)
     seen_leaf = 0
+    j3_items = []
     for lf in lv:
         r = lf.ret
         if r is None or r is TOP or sp.sympify(r) == 0:
@@ -609,6 +612,19 @@ def bell_gen(ctx, res, parb):
         seen_leaf += 1
         if seen_leaf > 40:
             break
+        j3_items.append((lf.pc, ff, {jm_, am_, sp.Symbol('vm_', real=True, positive=True)}))
+    # the exit of the acceleration search on which BOTH phases keep a constant-acceleration plateau (taj = tdj = A/jm): the acceptance
+    # test of the search is what makes ta >= 2*taj and td >= 2*tdj there
+    for pc_, ff_ in gen_exits:
+        if S('taj') in ff_ and S('tdj') in ff_ and sp.sympify(ff_[S('taj')]) != 0 and alg.is_zero(sp.sympify(ff_[S('taj')]) - sp.sympify(ff_[S('tdj')])):
+            pos_ = set(x for x in sp.sympify(ff_[S('taj')]).free_symbols if x.is_positive)
+            j3_items.append((pc_, ff_, pos_ | {sp.Symbol('jm_', real=True, positive=True)}))
+
+    class _L:
+        pass
+    for pc_, ff, allowed in j3_items:
+        lf = _L()
+        lf.pc = pc_
         for tot, jrk in ((S('ta'), S('taj')), (S('td'), S('tdj'))):
             E = sp.together(sp.sympify(ff[tot]) - 2 * sp.sympify(ff[jrk]))
             if alg.sqrt_zero(E):
@@ -629,7 +645,7 @@ def bell_gen(ctx, res, parb):
                     continue
                 q = sp.simplify(N / d)
                 sq = sign_of(q)
-                if sq is None or not q.free_symbols <= {jm_, am_, sp.Symbol('vm_', real=True, positive=True)}:
+                if sq is None or not q.free_symbols <= allowed:
                     continue
                 rel = c.rel()
                 if (sq > 0 and rel in ('>=', '>')) or (sq < 0 and rel in ('<=', '<')):
